@@ -38,7 +38,7 @@ RECURSIVE WrapVN(_, _, _)
 WrapVN(w, v, n) == IF n = 0 THEN v ELSE WrapV(w, WrapVN(w, v, n - 1))
 
 (* inner expressions: <<kind, how the wrapped expression is placed in the grammar>> *)
-Inners == {"lit", "ref", "litign", "call", "pylet", "pyfield", "pyparam", "wherelet", "count"}
+Inners == {"lit", "ref", "litign", "call", "pylet", "pyfield", "pyletfield", "countletfield", "pyparam", "wherelet", "count"}
 
 (* grammar for (inner kind, wrapped-expression builder F) *)
 Grammar(ik, w, n) ==
@@ -52,6 +52,11 @@ Grammar(ik, w, n) ==
          [] ik = "pylet"  -> [rules |-> ("start" :> Rule(Let("x", Ref("Wd"), F(PyVar("x"))))) @@ base, ign |-> <<>>, start |-> "start"]
          [] ik = "pyfield" -> [rules |-> ("start" :> Class(<<Field("x", Ref("Wd")), Field("y", F(PyVar("x")))>>)) @@ base,
                                ign |-> <<>>, start |-> "start"]
+         [] ik = "pyletfield" -> [rules |-> ("start" :> Class(<<LetF("x", Ref("Wd")), Field("y", F(PyVar("x")))>>)) @@ base,
+                                  ign |-> <<>>, start |-> "start"]
+         [] ik = "countletfield" -> [rules |-> ("start" :> Class(<<LetF("n", Apply(Rgx(Cls(<<49, 50>>)), Py(<<"fn", "int">>))),
+                                                                  Field("items", F(Rep(A1, Nm("n"), Nm("n"))))>>)) @@ base,
+                                     ign |-> <<>>, start |-> "start"]
          [] ik = "pyparam" -> [rules |-> ("start" :> Rule(Call("T", <<Pos(Ref("Wd"))>>)) @@ ("T" :> RuleP(<<"q">>, Seq2(Ref("q"), F(Py(<<"lst", << <<"k", <<"i", 1>>>> >> >>))))))
                                           @@ base, ign |-> <<>>, start |-> "start"]
          [] ik = "wherelet" -> [rules |-> ("start" :> Rule(Let("x", Left(Ref("Wd"), Str(<<44>>)), F(Where(Ref("Wd"), Lam("eq", "x")))))) @@ base,
@@ -62,7 +67,8 @@ Grammar(ik, w, n) ==
 Texts(ik) ==
     CASE ik \in {"lit", "ref", "call"} -> << <<a>>, <<b>>, <<>>, <<a, a>>, <<122, a>>, <<122, 122, a>> >>
       [] ik = "litign" -> << <<a>>, <<sp, a, sp, sp>>, <<a, sp, b>>, <<sp>>, <<122, sp, a>> >>
-      [] ik \in {"pylet", "pyfield", "pyparam"} -> << <<a, b>>, <<b>>, <<>>, <<a, 44>> >>
+      [] ik \in {"pylet", "pyfield", "pyletfield", "pyparam"} -> << <<a, b>>, <<b>>, <<>>, <<a, 44>> >>
+      [] ik = "countletfield" -> << <<50, a, a>>, <<49, a, a>>, <<50, a>>, <<49>> >>
       [] ik = "wherelet" -> << <<a, b, 44, a, b>>, <<a, 44, b>>, <<a, b, 44>>, <<b, 44, b, a>> >>
       [] ik = "count" -> << <<50, a, a>>, <<49, a, a>>, <<50, a>>, <<49>> >>
 
@@ -75,7 +81,7 @@ Init == /\ ik \in Inners /\ w \in Wrappers /\ n \in 1..MaxD /\ named \in {FALSE,
         \* quick: every depth for the sequence wrappers (they deepen the generated blocks), a sample of depths otherwise
         /\ (Tier = "quick" => (w \in {"seq", "optseq"} \/ n \in {1, 2, 10, 17, 18, 19, 20, 21, 30, 45}))
         /\ (Tier = "quick" => (named = (n % 2 = 0)))
-        /\ (w = "expectseq" => ik \notin {"pylet", "pyfield", "pyparam"})   \* Expect(`..`) reads inline Python as an option value
+        /\ (w = "expectseq" => ik \notin {"pylet", "pyfield", "pyletfield", "pyparam"})   \* Expect(`..`) reads inline Python as an option value
         /\ (w = "expectseq" => n <= 8)              \* this wrapper doubles the expression at every level
         /\ done = FALSE
 
